@@ -69,9 +69,80 @@ let eval_wi toks =
         | _ -> failwith ("unknown op " ^ op)))
   | _ -> failwith "bad line"
 
+(* ---------------------------------------------------------------- wrapped intervals *)
+let parse_wv s w =
+  if s = "bot" then wi_bottom else if s = "top" then wi_top else
+  match String.index_opt s ':' with
+  | Some k ->
+    let a = get (of_u64 (zs (String.sub s 0 k)) w) in
+    let b = get (of_u64 (zs (String.sub s (k+1) (String.length s - k - 1))) w) in
+    wi_mk a b
+  | None -> failwith ("bad interval " ^ s)
+let swv (i : witv) =
+  if is_bottom i then "_|_" else if is_top i then "top"
+  else "[" ^ string_of_z i.wstart.wn ^ "," ^ string_of_z i.wend.wn ^ "]@" ^ string_of_z i.wstart.ww
+let sowv = function Some i -> swv i | None -> "ABORT"
+let sob = function Some b -> sb b | None -> "ABORT"
+(* wrapped_interval::write prints signed numbers (PRINT_WRAPINT_AS_SIGNED) *)
+let write_wv (i : witv) =
+  if is_bottom i then "_|_" else if is_top i then "top"
+  else "[[" ^ string_of_z (get_signed_bignum i.wstart) ^ ", " ^ string_of_z (get_signed_bignum i.wend)
+       ^ "]]_" ^ string_of_z i.wstart.ww
+let s_itv = function
+  | None -> "ABORT"
+  | Some IVBot -> "_|_"
+  | Some IVTop -> "[-oo, +oo]"
+  | Some (IVRange (l, u)) ->
+    if ZA.gt (zarith_of_z l) (zarith_of_z u) then "_|_"
+    else "[" ^ string_of_z l ^ ", " ^ string_of_z u ^ "]"
+
+let eval_wv toks =
+  match toks with
+  | [_; "mkz"; w; z] -> sowv (mk_winterval1 (zs z) (zs w))
+  | [_; "mkzz"; w; l; u] -> sowv (mk_winterval2 (zs l) (zs u) (zs w))
+  | [_; "slimit"; w] -> if valid_width (zs w) then swv (signed_limit (zs w)) else "ABORT"
+  | [_; "ulimit"; w] -> if valid_width (zs w) then swv (unsigned_limit (zs w)) else "ABORT"
+  | [_; "default"; _] -> swv wi_top
+  | [_; op; w; a] ->
+    let a = parse_wv a (zs w) in
+    (match op with
+     | "isbot" -> sb (is_bottom a) | "istop" -> sb (is_top a)
+     | "issingleton" -> sb (is_singleton a)
+     | "crosss" -> sob (cross_signed_limit a) | "crossu" -> sob (cross_unsigned_limit a)
+     | "neg" -> swv (wi_neg a)
+     | "toitv" -> s_itv (wi_to_interval a)
+     | "lowers" -> swv (wi_lower_half_line a true) | "loweru" -> swv (wi_lower_half_line a false)
+     | "uppers" -> swv (wi_upper_half_line a true) | "upperu" -> swv (wi_upper_half_line a false)
+     | "write" -> write_wv a
+     | _ -> failwith ("unknown op " ^ op))
+  | [_; op; w; a; b] ->
+    let w = zs w in
+    let a = parse_wv a w in
+    (match op with
+     | "at" -> sb (wi_at a (get (of_u64 (zs b) w)))
+     | "zext" -> sowv (wi_zext a (zs b))
+     | "sext" -> sowv (wi_sext a (zs b))
+     | "trunc" -> sowv (wi_trunc a (zs b))
+     | _ ->
+       let b = parse_wv b w in
+       (match op with
+        | "leq" -> sb (wi_leq a b) | "eq" -> sb (wi_eq a b) | "ne" -> sb (not (wi_eq a b))
+        | "join" -> swv (wi_join a b) | "meet" | "narrow" -> swv (wi_meet a b)
+        | "widen" -> sowv (wi_widen a b)
+        | "add" | "addeq" -> swv (wi_add a b) | "sub" | "subeq" -> swv (wi_sub a b)
+        | "mul" | "muleq" -> sowv (wi_mul a b)
+        | "div" | "sdiv" | "diveq" -> sowv (wi_sdiv a b)
+        | "udiv" -> sowv (wi_udiv a b)
+        | "srem" | "urem" | "and" | "or" | "xor" -> swv (default_implementation a b)
+        | "shl" -> sowv (wi_shl a b) | "lshr" -> sowv (wi_lshr a b) | "ashr" -> sowv (wi_ashr a b)
+        | "trim" -> swv (wi_trim_interval a b)
+        | _ -> failwith ("unknown op " ^ op)))
+  | _ -> failwith "bad line"
+
 let eval toks =
   match toks with
   | "wi" :: _ -> eval_wi toks
+  | "wv" :: _ -> eval_wv toks
   | _ -> failwith "bad line"
 
 let () =
